@@ -41,6 +41,23 @@ JSON_ODD = ['{}', '[]', '[1]', '[1, 2]', '5', '0', '-2.5', 'null', 'true', 'fals
             '{"a": 1}', '{"a": {"b": [1, 2]}}', '[{"a": 1}]', '["x", "y"]', '1e999', 'NaN', '[[1]]',
             '{"0": 1}', '[null]', '"3"', '{"1": {"included": ["a"]}}']
 
+JSON_VALUES = ['1', '0', '-2.5', '1e999', '-1e999', 'NaN', 'Infinity', '1e30', 'null', 'true', 'false', '"s"', '""', '[1]', '[]',
+               '{}', '{"a": 1}', '1700000000000', '"2020"', '12.5', '["a", "b"]']
+
+def compose_json(rng_, pool):
+  """A JSON object text composed from the keys that occur in the pool's entries (so the keys a migration looks at are
+  present) plus unrelated keys, each with a value drawn from JSON_VALUES: the combinations a fixed pool cannot list,
+  e.g. a known key with a good value next to an unrelated key holding a non-finite number. Python's json.loads accepts
+  the NaN / Infinity / 1e999 tokens, as the engine's own parsing of these cells does."""
+  import re
+  keys = sorted(set(k for e in pool for k in re.findall(r'"([A-Za-z_][A-Za-z0-9_]*)"\s*:', e)))
+  extra = ['weight', 'x', 'extra', 'text']
+  n_known = rng_.randint(0, min(3, len(keys)))
+  chosen = rng_.sample(keys, n_known) + rng_.sample(extra, rng_.randint(0, 2))
+  rng_.shuffle(chosen)
+  return '{' + ', '.join('"%s": %s' % (k, rng_.choice(JSON_VALUES)) for k in chosen) + '}'
+
+
 def widget_options_pool(col_ids):
   cid = col_ids[0] if col_ids else 'A'
   cid2 = col_ids[-1] if col_ids else 'B'
@@ -296,6 +313,8 @@ def gen_doc(rng, V, variant=None, hostile_names=True, ntables=None):
     else:
       pool = None
     if pool is not None and r < 0.8:
+      if sp not in (None, 'tableids') and rng_.random() < 0.3:
+        return compose_json(rng_, pool)
       return rng_.choice(pool)
     if r < 0.9:
       return rng_.choice(PLAIN)
